@@ -1,7 +1,7 @@
 #!/bin/bash
 # tools/run_thorough_all.sh [ids...]: run thorough tiers one after another (development aid; logs under .work/)
 cd /verif; mkdir -p .work/thorough
-ids=${@:-C14 C11 C08 C20 C19 C18 C13 C17 C10 C06 C03 C04 C09 C15 C12 C02 C07 C05 C01}
+ids=${@:-C14 C11 C08 C20 C19 C18 C13 C17 C10 C16 C06 C03 C04 C09 C15 C12 C02 C07 C05 C01}
 for id in $ids; do
   s=$(date +%s)
   VSYM_EVIDENCE_DIR=/verif/.work/thorough/evidence timeout 14400 ./run $id thorough > .work/thorough/$id.log 2>&1; rc=$?
